@@ -2460,7 +2460,7 @@ class sptensor:
                     else:
                         newsz.append(max([self.shape[n], key_n.stop]))
                     m = m + 1
-                elif isinstance(key_n, (float, int)):
+                elif isinstance(key_n, (float, int, np.integer)):
                     if self.ndims <= n:
                         newsz.append(key_n + 1)
                     else:
